@@ -55,13 +55,19 @@ def diff_cases(pid, fam, cases, impl, model):
     out = []
     for i, c in enumerate(cases):
         idx = fam.binding(pid, c) if hasattr(fam, "binding") else None
-        view = (lambda o: fam.view(pid, c, o)) if hasattr(fam, "view") else (lambda o: o)
-        pm = view(project(model[i], idx))
+        if hasattr(fam, "view_im"):
+            view_i, view_m = (lambda o: fam.view_im(pid, c, o, False)), (lambda o: fam.view_im(pid, c, o, True))
+        elif hasattr(fam, "view"):
+            view_i = view_m = (lambda o: fam.view(pid, c, o))
+        else:
+            view_i = view_m = (lambda o: o)
+        pm = view_m(project(model[i], idx))
         for prof, obs in impl.items():
-            pi = view(project(obs[i], idx))
-            if pi != pm:
+            pi = view_i(project(obs[i], idx))
+            extra = fam.cross_checks(pid, c, obs[i], model[i]) if hasattr(fam, "cross_checks") else None
+            if pi != pm or extra:
                 out.append({"index": i, "case": c, "profile": prof, "impl": obs[i], "model": model[i],
-                            "binding_fields": idx})
+                            "binding_fields": idx, "predicate_failed": extra})
                 break
     return out
 
@@ -236,7 +242,7 @@ def run_property(pid, tier, seed, replay=None):
             rp = os.path.join(replay_dir, f"{pid}.{name}.json")
             json.dump({"property": pid, "tier": tier, "seed": seed, "family": name, "case": best["case"],
                        "profile": best["profile"], "fields": fam.FIELDS, "binding_fields": best["binding_fields"],
-                       "impl": best["impl"], "model": best["model"],
+                       "impl": trunc(best["impl"], 400), "model": trunc(best["model"], 400), "predicate_failed": best.get("predicate_failed"),
                        "explain": fam.explain(best) if hasattr(fam, "explain") else None,
                        "failing_cases_in_run": len(unknown), "proof": proof}, open(rp, "w"), indent=1)
             print(f"VIOLATION property={pid} replay={rp}")
